@@ -363,3 +363,6 @@ def run(S):
     from checks.C01 import rule_var
     rule_var(S)
     rule_fslot(S)
+    # mechanisms this property rests on (checks/shared.py)
+    from checks import shared
+    shared.gc_safety(S)
